@@ -57,14 +57,49 @@ def pname(base, **kw):
     return '%s[%s]' % (base, ','.join('%s=%s' % (k, v) for k, v in kw.items()))
 
 
+class PathTimeout(BaseException):
+    """wall-clock budget of one path / one concrete run exceeded (termination is part of several properties)"""
+
+
+PATH_TIMEOUT_S = 60
+CONCRETE_TIMEOUT_S = 20
+
+
+def _alarm(seconds):
+    import signal
+
+    def handler(signum, frame):
+        raise PathTimeout()
+    try:
+        signal.signal(signal.SIGALRM, handler)
+        signal.setitimer(signal.ITIMER_REAL, seconds)
+        return True
+    except (ValueError, OSError):
+        return False
+
+
+def _alarm_off():
+    import signal
+    try:
+        signal.setitimer(signal.ITIMER_REAL, 0)
+    except (ValueError, OSError):
+        pass
+
+
 # ------------------------------------------------------------------------------------------------ concrete runs
 def run_concrete(h, values):
     E = Engine(mode='conc', values=values)
     try:
-        sig = h.run(E)
+        _alarm(CONCRETE_TIMEOUT_S)
+        try:
+            sig = h.run(E)
+        finally:
+            _alarm_off()
         return {'kind': 'ret', 'sig': sig, 'failed': list(E.conc_failed), 'checks': [(l, s) for l, s, _ in E.checks]}
     except Abort:
         return {'kind': 'abort', 'sig': None, 'failed': [], 'checks': []}
+    except PathTimeout:
+        return {'kind': 'timeout', 'sig': 'no result within %d s' % CONCRETE_TIMEOUT_S, 'failed': ['terminates'], 'checks': []}
     except Unsupported as e:
         return {'kind': 'unsupported', 'sig': repr(e), 'failed': [], 'checks': []}
     except Exception as e:   # noqa
@@ -137,7 +172,13 @@ def _explore(h, roots, max_paths, max_s, seed, validate_every):
         E.solver.push()
         kind, sig, err = 'ret', None, None
         try:
-            sig = h.run(E)
+            _alarm(PATH_TIMEOUT_S)
+            try:
+                sig = h.run(E)
+            finally:
+                _alarm_off()
+        except PathTimeout:
+            kind, err = 'timeout', 'path did not finish within %d s' % PATH_TIMEOUT_S
         except Abort:
             kind = 'abort'
         except Unsupported as e:
@@ -188,6 +229,15 @@ def _finish_path(h, E, st, kind, sig, err, tb, validate_every, npaths):
     values = None
     if kind in ('unsupported', 'budget'):
         st['inconclusive'].append({'harness': h.name, 'what': kind, 'detail': err})
+    if kind == 'timeout':
+        # the real code did not come back on this path: confirm with a concrete run of the same inputs under a (shorter) wall-clock limit
+        values = E.path_model_values()
+        conc = run_concrete(h, values) if values is not None else None
+        if conc is not None and conc['kind'] == 'timeout':
+            st['cex'].append({'harness': h.name, 'label': 'terminates', 'values': jsonable(values), 'detail': 'no result within %d s (concrete run)' % CONCRETE_TIMEOUT_S})
+        else:
+            st['inconclusive'].append({'harness': h.name, 'what': 'path timeout (symbolic run only)', 'values': jsonable(values)})
+        return
     if kind == 'exc':
         # an exception the harness did not anticipate: real behaviour or harness bug? replay concretely.
         values = E.path_model_values()
@@ -196,8 +246,10 @@ def _finish_path(h, E, st, kind, sig, err, tb, validate_every, npaths):
             st['cex'].append({'harness': h.name, 'label': 'unexpected-exception:' + conc['sig'], 'values': jsonable(values),
                               'detail': err})
         else:
-            st['errors'].append({'harness': h.name, 'what': 'exception on symbolic path not reproduced concretely',
-                                 'detail': err, 'tb': tb, 'values': jsonable(values)})
+            # raised only under symbolic execution (a numpy/C routine the shadow values cannot enter, or an interrupted solver call
+            # surfacing as an exception inside repository code that catches Exception): the path is inconclusive, not a verdict
+            st['inconclusive'].append({'harness': h.name, 'what': 'exception on the symbolic path only (not reproduced concretely)',
+                                       'detail': err, 'values': jsonable(values)})
         return
     for (label, status, vals) in E.checks:
         st['checks'] += 1
@@ -509,7 +561,7 @@ def replay(path):
     h = hs[d['harness']]
     conc = run_concrete(h, unjson(d['values']))
     print('replay %s: harness=%s outcome=%s failed=%s' % (path, h.name, conc['kind'], conc['failed']))
-    if d['label'] in conc['failed'] or (d['label'].startswith('unexpected-exception') and conc['kind'] == 'exc'):
+    if d['label'] in conc['failed'] or (d['label'].startswith('unexpected-exception') and conc['kind'] == 'exc') or (d['label'] == 'terminates' and conc['kind'] == 'timeout'):
         print('VIOLATION property=%s replay=%s' % (d['property'], path))
         return 1
     print('does not reproduce on the current tree')
